@@ -6,6 +6,9 @@ pub fn to_int(&self) -> Rounded<IBig>
         !(self.significand.v() == 0 && self.exponent != 0),           // finite (documented panic otherwise)
         self.significand.v() == 0 || self.significand.v() % (B as int) != 0,      // normalized (invariant of Repr::new)
         self.exponent > isize::MIN,                                    // `-self.exponent` (overflow of isize is outside this contract)
+        // resource limit: exponent overflow is a documented panic (C16), not modelled: `shl_digits` / `shr_digits` by
+        // |exponent| digits compute the bit position `|exponent| * log2(B)` in usize
+        pos_room(iabs(self.exponent as int)),
     ensures
         // C10: "The fractional part is always rounded to zero": the integer is the rounding towards zero of
         // significand * B^exponent, Exact iff the value is an integer, otherwise flagged NoOp (= truncated)
